@@ -2,8 +2,9 @@
 Require Extraction.
 From Coq Require Import ExtrOcamlBasic.
 From JSL Require Import Base.Res Base.ListX SM.Types SM.Util SM.Handler SM.Step SM.Middleware SM.Inv SM.Events
-  Classic.Jssp Obs.Reward Obs.ObsModel.
+  Classic.Jssp Obs.Reward Obs.ObsModel Dsl.Doc.
 Extraction "../ocaml/gen/sm.ml" step mw_step mw_reset env_step env_makespan get_possible_transitions
   create_timed_transitions apply_transition is_transition_valid clause_vector event_vector
   lower_bound total_work reward terminal_term
-  make_simple current_transition make_oparray simple_int_fields_in_space time_in_space triple_in_space.
+  make_simple current_transition make_oparray simple_int_fields_in_space time_in_space triple_in_space
+  compile.
